@@ -3,8 +3,9 @@
 //                                           patterns, index maps and local matrices (one scatter object, many calls)
 //  asm     : the real SymbolicAssembler (through a stand-in space with arbitrary DOF tables) + real CSR scatter
 //  fe      : real assemblers on real meshes/spaces (all routes, everything the oracle needs)  -> fe.hpp
+//  bg/bgsd : Burgers operator, classic assembler and domain-assembler jobs (blocked and scalar) -> burgers.hpp
 //  feasm   : the classic assembler once more, printing only the matrix (compared with the model's fold)
-#include "fe.hpp"
+#include "burgers.hpp"
 #include <kernel/lafem/sparse_matrix_banded.hpp>
 
 using namespace FEAT;
@@ -224,6 +225,15 @@ static void handle(const verif::Tokens& t, std::ostream& o)
     else if(shape == "tria") fe_tria(c, o, full);
     else if(shape == "hexa") fe_hexa(c, o, full);
     else if(shape == "tetra") fe_tetra(c, o, full);
+    else o << "BAD-OP";
+  }
+  else if(op == "bg" || op == "bgsd")
+  {
+    std::string shape = c.str();
+    bool full = (op == "bg");
+    if(shape == "quad") bg_quad(c, o, full);
+    else if(shape == "tria") bg_tria(c, o, full);
+    else if(shape == "hexa") bg_hexa(c, o, full);
     else o << "BAD-OP";
   }
   else
